@@ -214,7 +214,7 @@ func ff(n int) []byte {
 }
 
 // contentLens are the lengths primitive contents are truncated/extended to.
-var contentLens = []int{0, 1, 2, 7, 8, 9, 15, 16, 17, 31, 32, 33, 63, 64, 65, 96, 97}
+var contentLens = []int{0, 1, 2, 4, 7, 8, 9, 11, 12, 13, 14, 15, 16, 17, 31, 32, 33, 63, 64, 65, 96, 97}
 
 // numMutations returns how many structural mutations mutateNode knows for a node.
 func numMutations(r nodeRef) int {
